@@ -397,6 +397,50 @@ fn km_pretty_object() {
     assert!(t.same(&to_pretty_string(doc.as_slice())));
 }
 
+/// ESCAPING, 2-byte strings with ONE symbolic byte: a literal before a possibly escaped byte (the pending literal must
+/// be flushed first) and a literal after a possibly escaped byte
+#[kani::proof]
+#[kani::unwind(6)]
+#[kani::stub(crate::parser::parse_value, no_text)]
+#[kani::stub(std::string::String::from_utf8_lossy, lossy_ascii)]
+fn km_text_scalar_lit_sym() {
+    let c: u8 = kani::any();
+    kani::assume(c < 0x80);
+    let s = cstr(&[b'a', c]);
+    let doc = layout_scalar(&s);
+    let mut t = Txt::new();
+    t.string(s.payload());
+    assert!(t.same(&to_string(doc.as_slice())));
+}
+
+#[kani::proof]
+#[kani::unwind(6)]
+#[kani::stub(crate::parser::parse_value, no_text)]
+#[kani::stub(std::string::String::from_utf8_lossy, lossy_ascii)]
+fn km_text_scalar_sym_lit() {
+    let c: u8 = kani::any();
+    kani::assume(c < 0x80);
+    let s = cstr(&[c, b'a']);
+    let doc = layout_scalar(&s);
+    let mut t = Txt::new();
+    t.string(s.payload());
+    assert!(t.same(&to_string(doc.as_slice())));
+}
+
+/// STRUCTURE, pretty ["a", []]: separator `,\n`, two-space indentation, and the EMPTY nested container as the current code
+/// prints it (opening bracket, an empty line, the parent's indentation, closing bracket)
+#[kani::proof]
+#[kani::unwind(6)]
+#[kani::stub(crate::parser::parse_value, no_text)]
+#[kani::stub(std::string::String::from_utf8_lossy, lossy_ascii)]
+fn km_pretty_array2() {
+    let d = lay_array(&[cstr(b"a"), cont(&lay_array(&[]))]);
+    let mut t = Txt::new();
+    t.lit(b"[\n  \"a\",\n  [\n\n");
+    t.lit(b"  ]\n]");
+    assert!(t.same(&to_pretty_string(d.as_slice())));
+}
+
 /// STRUCTURE, smallest pretty shapes: [null] and {"a": true}
 #[kani::proof]
 #[kani::unwind(6)]
@@ -404,7 +448,9 @@ fn km_pretty_object() {
 #[kani::stub(std::string::String::from_utf8_lossy, lossy_ascii)]
 fn km_pretty_tiny_array() {
     let d = lay_array(&[c_null()]);
-    assert!(to_pretty_string(d.as_slice()).as_bytes() == b"[\n  null\n]");
+    let mut t = Txt::new();
+    t.lit(b"[\n  null\n]");
+    assert!(t.same(&to_pretty_string(d.as_slice())));
 }
 
 #[kani::proof]
@@ -413,7 +459,9 @@ fn km_pretty_tiny_array() {
 #[kani::stub(std::string::String::from_utf8_lossy, lossy_ascii)]
 fn km_pretty_tiny_object() {
     let d = lay_object(&[cstr(b"a")], &[c_true()]);
-    assert!(to_pretty_string(d.as_slice()).as_bytes() == b"{\n  \"a\": true\n}");
+    let mut t = Txt::new();
+    t.lit(b"{\n  \"a\": true\n}");
+    assert!(t.same(&to_pretty_string(d.as_slice())));
 }
 
 /// empty top-level containers, compact and pretty
@@ -507,7 +555,19 @@ fn km_cmpkey_array_prefix() {
     check_keys(&layout_array(&b), &layout_array(&a));
 }
 
-/// the same with a string after the shorter string: [s, t] against [s', x]
+/// equal-width first elements that may be EQUAL, so that the second elements decide: [s, t] against [s', t'] with 1-byte
+/// strings (the second element's payload offset matters)
+#[kani::proof]
+#[kani::unwind(30)]
+#[kani::stub(crate::parser::parse_value, no_text)]
+fn km_cmpkey_array_second() {
+    let a = [sc_str1().it, sc_str1().it];
+    let b = [sc_str1().it, sc_str1().it];
+    kani::assume(hi(&a[0]) && hi(&a[1]) && hi(&b[0]) && hi(&b[1]));
+    check_keys(&layout_array(&a), &layout_array(&b));
+}
+
+/// a string after the shorter string: [s, t] against [s', x]
 #[kani::proof]
 #[kani::unwind(30)]
 #[kani::stub(crate::parser::parse_value, no_text)]
@@ -525,7 +585,8 @@ fn km_cmpkey_array_prefix2() {
 #[kani::stub(crate::parser::parse_value, no_text)]
 fn km_cmpkey_array_len() {
     let a = [sc_w0().it];
-    let b = [sc_w0().it, sc_w0().it];
+    let b = [sc_w0().it, sc_str1().it];
+    kani::assume(hi(&b[1]));
     check_keys(&layout_array(&a), &layout_array(&b));
     check_keys(&layout_array(&b), &layout_array(&a));
 }
